@@ -579,7 +579,7 @@ func (x g) modeAtom(arity int, allowed []string) string {
 // modeText prints the mode chosen for the predicate (the rules are built for it).
 func (x g) modeText(p pred) string {
 	k := len(p.mode)
-	if x.bad(15) {
+	if x.bad(15) || p.synthetic && x.chance(25) {
 		k = x.n(0, 4)
 	}
 	parts := make([]string, k)
@@ -733,7 +733,7 @@ func (x g) decl(p pred, preds []pred) string {
 				parts[x.n(0, len(parts)-1)] = `"` + q.name + `"`
 			}
 		}
-		if x.bad(8) {
+		if x.bad(8) || p.synthetic && x.chance(25) { // (what a hand-written synthetic() switches off must not include the shape checks)
 			if x.chance(50) {
 				parts = parts[:x.n(0, len(parts))]
 			} else {
@@ -896,7 +896,7 @@ func (x g) preds() []pred {
 		return t
 	}
 	cols := func(p *pred) {
-		p.synthetic = p.declared && x.n(0, 999) >= 955
+		p.synthetic = p.declared && (x.n(0, 999) >= 955 || x.hot && x.chance(20))
 		p.cols = make([]*ty, p.arity)
 		p.bounds = p.declared && typing != 0 && (x.chance(75) || p.arity == 0)
 		if p.declared && p.arity == 0 && !x.hot {
